@@ -407,10 +407,21 @@ pub fn run_case(idents: &[Ident], idx: u64, rng: &mut Rng, thorough: bool, hist:
                 6 => {
                     // the handler reports an unverifiable record
                     let i = pick_actor(rng);
-                    let ri = c.recs.get(&shape(rng, i));
+                    // the reported record is the peer's own, or (the peer handed over a record that
+                    // is not its own) the record of another node: only the peer itself is affected
+                    let j = if rng.chance(1, 3) { pick_actor(rng) } else { i };
+                    let ri = c.recs.get(&shape(rng, j));
                     let enr = c.recs.list[ri].enr.clone();
+                    let had_j = snapshot(&c.a.s.kbuckets.read()).iter().any(|(k, _, _)| *k == idents[j].id);
                     c.a.inject(HandlerOut::UnverifiableEnr { enr, socket: sock4([10, 0, 0, 77], 30303), node_id: idents[i].node_id() }).await;
                     c.absorb();
+                    if j != i {
+                        c.hist.add("c12:op_unverifiable_with_foreign_record");
+                        let has_j = snapshot(&c.a.s.kbuckets.read()).iter().any(|(k, _, _)| *k == idents[j].id);
+                        if had_j && !has_j {
+                            c.failures.push(("C01".into(), "the routing-table entry of a node that took no part in the handshake was removed because another peer presented its record".into()));
+                        }
+                    }
                     c.hist.add("c12:op_unverifiable");
                     c.record(&before, format!("XUnv {}", coq_hex(&idents[i].id)), vec![], "unverifiable", None, &[]);
                 }
